@@ -193,7 +193,11 @@ Inductive awhere :=
 | Queued        (* inserted by [play], not yet adopted by the track *)
 | OnTrack
 | Unloaded      (* finished and removed by the track *)
-| Gone.         (* dropped unfinished: rejected by a full track, or its track / manager was dropped *)
+| Limbo         (* its track was removed by the audio thread (track handle dropped): no longer processed, but
+                   the Track object, the sound and its ring consumer wait in the parent's unused-resource
+                   queue until the gameplay thread drains it (next add_sub_track, or the manager's drop) *)
+| Gone.         (* dropped unfinished (ring consumer dropped): rejected by a full track, its manager was
+                   dropped, or its removed track was drained *)
 
 Inductive out_entry := OZero | OHeard (it : item).
 
@@ -221,7 +225,7 @@ Inductive event :=
 | D
 | AStart | AProc (n : nat) | AFrame
 | GStop (f : Z) | GPause (f : Z) | GResume (f : Z) | GSeekTo (i : Z)
-| GPopError | GDropHandle | GDropSound
+| GPopError | GDropHandle | GDropSound | GDropTrack | GDrain
 | GObsH | GObsD.
 
 Definition status_code (s : dstatus) : Z :=
@@ -265,16 +269,19 @@ Definition with_dthread (d : dthread) (st : dstatus) (pc : dpc) : dthread :=
   {| d_status := st; d_pc := pc; d_dec := d_dec d; d_dcfi := d_dcfi d; d_chunk := d_chunk d; d_tr := d_tr d;
      d_pushes := d_pushes d; d_sleeps := d_sleeps d; d_good := d_good d; d_spin := d_spin d |}.
 
+(** the ring's consumer (held by the StreamingSound) has been dropped *)
+Definition abandoned (s : state) : bool := match a_where s with Gone => true | _ => false end.
+
 (** * Decoder thread *)
 Section Decoder.
   Variable cfg : config.
 
-  (** the [Err] arm of the loop in [start]: push to the error ring (dropped if occupied), set the flag —
-      and loop again at once *)
+  (** the [Err] arm of the loop in [start]: push to the error ring (dropped if occupied), set the flag,
+      [break] (since commit f5181da; before, the loop went round again at once) *)
   Definition d_raise (s : state) (d : dthread) (e : Z) : state :=
-    let d' := {| d_status := DRunning; d_pc := PcTop; d_dec := d_dec d; d_dcfi := d_dcfi d; d_chunk := d_chunk d;
+    let d' := {| d_status := DEnded; d_pc := PcTop; d_dec := d_dec d; d_dcfi := d_dcfi d; d_chunk := d_chunk d;
                  d_tr := d_tr d; d_pushes := d_pushes d; d_sleeps := d_sleeps d; d_good := d_good d;
-                 d_spin := S (d_spin d) |} in
+                 d_spin := d_spin d |} in
     {| st_d := d'; sh_state := sh_state s; sh_pos := sh_pos s; sh_reached_end := sh_reached_end s; sh_err := true;
        sh_ring := sh_ring s; sh_n := sh_n s;
        sh_err_slot := match sh_err_slot s with None => Some e | x => x end;
@@ -309,14 +316,19 @@ Section Decoder.
     {| d_status := DRunning; d_pc := pc; d_dec := d_dec d; d_dcfi := d_dcfi d; d_chunk := d_chunk d; d_tr := d_tr d;
        d_pushes := d_pushes d; d_sleeps := d_sleeps d; d_good := S (d_good d); d_spin := O |}.
 
+  Definition d_idle (d : dthread) (pc : dpc) : dthread :=
+    {| d_status := DRunning; d_pc := pc; d_dec := d_dec d; d_dcfi := d_dcfi d; d_chunk := d_chunk d; d_tr := d_tr d;
+       d_pushes := d_pushes d; d_sleeps := d_sleeps d; d_good := d_good d; d_spin := S (d_spin d) |}.
+
   (** [frame_at_index (transport.position)] from its beginning up to the first decoder call *)
   Definition d_fetch (s : state) (d : dthread) : state :=
     let index := tr_pos (d_tr d) in
     if num_frames cfg <=? index then d_deliver s d None
     else match chunk_lookup (d_chunk d) index with
          | Some v => d_deliver s d (Some v)
-         | None => if index <? d_dcfi d then set_d s (d_progress d (PcReseek index))
-                   else set_d s (d_progress d (PcDecode index))
+         | None => (* stands before a decoder call: a step without sleep or progress *)
+                   if index <? d_dcfi d then set_d s (d_idle d (PcReseek index))
+                   else set_d s (d_idle d (PcDecode index))
          end.
 
   Definition with_dec (d : dthread) (dec : decoder) : dthread :=
@@ -338,6 +350,8 @@ Section Decoder.
         | PcTop =>
             (* run(): manually stopped => End *)
             if sh_state s =? 6 then set_d s (with_dthread d DEnded PcTop)
+            (* the sound no longer exists: [frame_producer.is_abandoned()] => End (since commit 44357a4) *)
+            else if abandoned s then set_d s (with_dthread d DEnded PcTop)
             (* ring full => Wait: sleep 1 ms *)
             else if cf_cap cfg <=? sh_n s then
               set_d s {| d_status := DRunning; d_pc := PcTop; d_dec := d_dec d; d_dcfi := d_dcfi d; d_chunk := d_chunk d;
@@ -474,11 +488,24 @@ Definition g_step (s : state) (e : event) : state :=
          g_handle := false; g_play_err := g_play_err s;
          l_raised := l_raised s; l_popped := l_popped s; l_out := l_out s; l_skipped := l_skipped s; l_obs := l_obs s |}
   | GDropSound =>
+      (* rejected by a full track / the manager is dropped: the sound is dropped at once *)
       match a_where s with
-      | Queued | OnTrack => set_a s Gone (a_psm s) (sh_state s) O
+      | Queued | OnTrack | Limbo => set_a s Gone (a_psm s) (sh_state s) O
       | _ => s
       end
-  | GObsH => set_obs s (sh_pos s :: sh_state s :: l_obs s)
+  | GDropTrack =>
+      (* the track's handle is dropped; the next callback removes the track before the sound's
+         on_start_processing: from the sound's point of view it is simply never run again *)
+      match a_where s with
+      | Queued | OnTrack => set_a s Limbo (a_psm s) (sh_state s) O
+      | _ => s
+      end
+  | GDrain =>
+      match a_where s with
+      | Limbo => set_a s Gone (a_psm s) (sh_state s) O
+      | _ => s
+      end
+  | GObsH => set_obs s ((match a_where s with Queued | OnTrack | Limbo => 1 | _ => 0 end) :: sh_pos s :: sh_state s :: l_obs s)
   | GObsD => set_obs s (dc_nseek (d_dec (st_d s)) :: dc_ndec (d_dec (st_d s)) :: status_code (d_status (st_d s)) :: l_obs s)
   | _ => s
   end.
